@@ -580,7 +580,8 @@ def fuelMax : Nat := 100000
 def cfgOf (app : DApp) : Config DExt where
   codes := app.codes
   codeBase := app.codeBase
-  validAddr := fun s => isBound app.ch.ext.syms s
+  -- valid = declared in the case, except names starting with `bad` (what the permissive Api of slice `wasm-legacy` refuses)
+  validAddr := fun s => isBound app.ch.ext.syms s && !s.startsWith "bad"
   addrClassic := fun c i =>
     match app.ch.ext.syms.lookup ("c" ++ toString c ++ "_" ++ toString i) with
     | some r => .ok r
